@@ -393,7 +393,7 @@ Proof.
     destruct Hg as [_ Hg]. destruct (Hg r Hr) as [Hlen _].
     unfold abs at 1. cbn [cols t' mkT]. rewrite (row_env_app _ _ _ _ _ _ Hlen), Hf3. f_equal.
     + unfold abs. cbn [fst]. f_equal. f_equal.
-      unfold edge_col. destruct (h_evar h) as [e|]; [rewrite Hf4; reflexivity|]. unfold anon. rewrite String.eqb_refl. reflexivity.
+      unfold edge_col. destruct (h_evar h) as [e|]; [destruct Hf4 as [Hf4 _]; rewrite Hf4; reflexivity|]. unfold anon. rewrite String.eqb_refl. reflexivity.
     + unfold cur_of. rewrite Hlen, nth_error_app_len. reflexivity.
 Qed.
 
@@ -408,18 +408,64 @@ Proof.
   unfold has_label. destruct (existsb (String.eqb l) (nlabels nd)); reflexivity.
 Qed.
 
+Lemma NoDup_snoc {A} (l : list A) a : NoDup l -> ~ List.In a l -> NoDup (l ++ [a]).
+Proof.
+  induction l as [|b l IH]; intros Hn Hi; cbn; [constructor; [intros []|constructor]|].
+  inversion Hn as [|? ? Hb Hl]; subst. constructor.
+  - intro Hin. apply in_app_or in Hin. destruct Hin as [Hin|[->|[]]]; [exact (Hb Hin)|apply Hi; left; reflexivity].
+  - apply IH; [exact Hl|]. intro Hin. apply Hi. right. exact Hin.
+Qed.
+Lemma existsb_eqb_false x cs : existsb (String.eqb x) cs = false -> ~ List.In x cs.
+Proof.
+  intros H Hin. assert (existsb (String.eqb x) cs = true); [|congruence].
+  apply existsb_exists. exists x. split; [exact Hin|apply String.eqb_refl].
+Qed.
+Lemma expand_wfc st t i h :
+  wfc t -> hop_fresh (cols t) h ->
+  wfc (mkT (cols t ++ [edge_col (h_evar h); np_var (h_to h)])
+           (flat_map (fun r => map (fun te => r ++ [CEdge (snd te); CNode (fst te)])
+                                   (neighbors st true (cur_of i r) (h_dir h) (h_type h))) (rows t))).
+Proof.
+  intros [Hnd Hr] (Hf1 & Hf2 & Hf3 & Hf4). split.
+  - cbn [cols mkT]. rewrite filter_app.
+    assert (Hto : ~ List.In (np_var (h_to h)) (filter nonanon (cols t))).
+    { intro Hin. apply filter_In in Hin. exact (existsb_eqb_false _ _ Hf1 (proj1 Hin)). }
+    unfold edge_col in *. destruct (h_evar h) as [e|].
+    + destruct Hf4 as [Hf4 Hf5].
+      assert (Hfe : filter nonanon [e; np_var (h_to h)] = [e] ++ [np_var (h_to h)])
+        by (cbn [filter]; unfold nonanon; rewrite Hf4, Hf3; reflexivity).
+      rewrite Hfe.
+      rewrite app_assoc. apply NoDup_snoc.
+      * apply NoDup_snoc; [exact Hnd|]. intro Hin. apply filter_In in Hin. exact (existsb_eqb_false _ _ Hf5 (proj1 Hin)).
+      * intro Hin. apply in_app_or in Hin. destruct Hin as [Hin|[Heq|[]]]; [exact (Hto Hin)|].
+        rewrite Heq, String.eqb_refl in Hf2. discriminate Hf2.
+    + assert (Hfe : filter nonanon [anon; np_var (h_to h)] = [np_var (h_to h)])
+        by (cbn [filter]; unfold nonanon; rewrite Hf3, String.eqb_refl; reflexivity).
+      rewrite Hfe. apply NoDup_snoc; assumption.
+  - intros r' Hr'. cbn [rows mkT] in Hr'. apply in_flat_map in Hr'. destruct Hr' as (r & Hin & Hr').
+    apply in_map_iff in Hr'. destruct Hr' as (te & <- & _). destruct (Hr r Hin) as [Hl He]. split.
+    + cbn [cols mkT]. rewrite !app_length. cbn. lia.
+    + apply Forall_app. split; [exact He|]. repeat constructor.
+Qed.
+Lemma filter_wfc keep t : wfc t -> wfc (filter_tbl keep t).
+Proof.
+  intros [Hnd Hr]. split; [exact Hnd|]. intros r Hin. cbn [filter_tbl rows mkT] in Hin. apply filter_In in Hin.
+  apply Hr. apply Hin.
+Qed.
+
 Lemma sem_ops_filter st e i :
   sem_ops st (LFilter e i) = (do t <- sem_ops st i; Ok (filter_tbl (fun r => passes_row st (cols t) r e) t)).
 Proof. reflexivity. Qed.
 
 Lemma hop_sem st h x i input t :
-  sem_ops st input = Ok t -> good t x i -> h_len h = HOne -> hop_fresh (cols t) h ->
+  sem_ops st input = Ok t -> good t x i -> wfc t -> h_len h = HOne -> hop_fresh (cols t) h ->
   exists t', sem_ops st (hop_plan x h input) = Ok t' /\
              cols t' = cols t ++ [edge_col (h_evar h); np_var (h_to h)] /\
-             good t' (np_var (h_to h)) (S (List.length (cols t))) /\
+             good t' (np_var (h_to h)) (S (List.length (cols t))) /\ wfc t' /\
              map (abs t' (S (List.length (cols t)))) (rows t') = flat_map (obind_hop st h) (map (abs t i) (rows t)).
 Proof.
-  intros Hs Hg Hl Hf.
+  intros Hs Hg Hw Hl Hf.
+  pose proof (expand_wfc st t i h Hw Hf) as Hw'.
   destruct (expand_sem st t x i h Hg Hf) as (He & Hg' & Habs).
   set (t1 := mkT (cols t ++ [edge_col (h_evar h); np_var (h_to h)])
                  (flat_map (fun r => map (fun te => r ++ [CEdge (snd te); CNode (fst te)])
@@ -429,13 +475,13 @@ Proof.
     rewrite He. reflexivity. }
   unfold hop_plan. rewrite Hl.
   destruct (np_labels (h_to h)) as [|l ls] eqn:Elab.
-  - exists t1. split; [exact Hex|]. split; [reflexivity|]. split; [exact Hg'|].
+  - exists t1. split; [exact Hex|]. split; [reflexivity|]. split; [exact Hg'|]. split; [exact Hw'|].
     rewrite Habs. apply flat_map_ext_in. intros ec _. unfold obind_hop.
     rewrite (filter_ext_in' _ (fun _ => true)); [|intros a _; unfold first_label_ok; rewrite Elab; reflexivity].
     rewrite filter_true. reflexivity.
   - set (keep := fun r => passes_row st (cols t1) r (EHasLabel (np_var (h_to h)) l)).
     exists (filter_tbl keep t1). split; [rewrite sem_ops_filter, Hex; reflexivity|].
-    split; [reflexivity|]. split.
+    split; [reflexivity|]. split; [|split; [apply filter_wfc; exact Hw'|]].
     + destruct Hg' as [Hp Hr]. split; [exact Hp|]. intros r Hr'. cbn [filter_tbl rows mkT] in Hr'.
       apply filter_In in Hr'. apply Hr. apply Hr'.
     + cbn [filter_tbl rows mkT cols]. 
@@ -463,24 +509,24 @@ Proof.
   repeat match goal with Hn : negb _ = true |- _ => apply negb_true_iff in Hn end.
   split; [|assumption]. unfold hop_fresh. repeat split; try assumption.
   destruct (h_evar h); [|exact I].
-  match goal with Hx : (_ && _)%bool = true |- _ => apply andb_true_iff in Hx; destruct Hx as [Hx _]; apply negb_true_iff in Hx; exact Hx end.
+  match goal with Hx : (_ && _)%bool = true |- _ => apply andb_true_iff in Hx; destruct Hx as [Hx Hy]; apply negb_true_iff in Hx, Hy; split; assumption end.
 Qed.
 
 Lemma hops_sem st hs : forall x i input t,
-  sem_ops st input = Ok t -> good t x i ->
+  sem_ops st input = Ok t -> good t x i -> wfc t ->
   Forall (fun h => h_len h = HOne) hs -> hops_fresh (cols t) hs = true ->
-  exists t' x' i', sem_ops st (hops_plan x hs input) = Ok t' /\ good t' x' i' /\
+  exists t' x' i', sem_ops st (hops_plan x hs input) = Ok t' /\ good t' x' i' /\ wfc t' /\
                    map (abs t' i') (rows t') = obind_hops st hs (map (abs t i) (rows t)).
 Proof.
-  induction hs as [|h hs IH]; intros x i input t Hs Hg Hl Hf.
-  - exists t, x, i. split; [exact Hs|split; [exact Hg|reflexivity]].
+  induction hs as [|h hs IH]; intros x i input t Hs Hg Hw Hl Hf.
+  - exists t, x, i. split; [exact Hs|split; [exact Hg|split; [exact Hw|reflexivity]]].
   - inversion Hl as [|? ? Hl1 Hl2]; subst.
     destruct (hops_fresh_cons _ _ _ Hf) as [Hf1 Hf2].
-    destruct (hop_sem st h x i input t Hs Hg Hl1 Hf1) as (t1 & Hs1 & Hc1 & Hg1 & Ha1).
+    destruct (hop_sem st h x i input t Hs Hg Hw Hl1 Hf1) as (t1 & Hs1 & Hc1 & Hg1 & Hw1 & Ha1).
     rewrite <- Hc1 in Hf2.
-    destruct (IH (np_var (h_to h)) (S (List.length (cols t))) (hop_plan x h input) t1 Hs1 Hg1 Hl2 Hf2)
-      as (t' & x' & i' & Hs' & Hg' & Ha').
-    exists t', x', i'. split; [exact Hs'|]. split; [exact Hg'|].
+    destruct (IH (np_var (h_to h)) (S (List.length (cols t))) (hop_plan x h input) t1 Hs1 Hg1 Hw1 Hl2 Hf2)
+      as (t' & x' & i' & Hs' & Hg' & Hw' & Ha').
+    exists t', x', i'. split; [exact Hs'|]. split; [exact Hg'|]. split; [exact Hw'|].
     cbn [obind_hops]. rewrite <- Ha1. exact Ha'.
 Qed.
 
@@ -491,9 +537,9 @@ Proof.
 Qed.
 
 (** the operators enumerate the operational bindings, in order — no exclusion of any defect class *)
-Theorem chain_obindings st p :
+Lemma chain_obindings_wfc st p :
   single_hops p = true -> pat_fresh p = true ->
-  exists t, sem_ops st (chain_plan p) = Ok t /\ tbl_envs t = obindings st p.
+  exists t, sem_ops st (chain_plan p) = Ok t /\ wfc t /\ tbl_envs t = obindings st p.
 Proof.
   intros H1 Hf. unfold pat_fresh in Hf. apply andb_true_iff in Hf. destruct Hf as [Hx Hf].
   apply negb_true_iff in Hx.
@@ -504,9 +550,14 @@ Proof.
   { split; [cbn; rewrite String.eqb_refl; reflexivity|].
     intros r Hr. cbn [rows t0 mkT] in Hr. unfold scan_rows in Hr. apply in_map_iff in Hr.
     destruct Hr as (n & <- & _). split; [reflexivity|]. exists (nid n). reflexivity. }
-  destruct (hops_sem st (p_hops p) x 0%nat (LScan x label) t0 eq_refl Hg0 (single_hops_forall p H1) Hf)
-    as (t' & x' & i' & Hs' & Hg' & Ha').
-  exists t'. split; [exact Hs'|].
+  assert (Hw0 : wfc t0).
+  { split.
+    - cbn. unfold nonanon. rewrite Hx. cbn. constructor; [intros []|constructor].
+    - intros r Hr. cbn [rows t0 mkT] in Hr. unfold scan_rows in Hr. apply in_map_iff in Hr.
+      destruct Hr as (n & <- & _). split; [reflexivity|]. repeat constructor. }
+  destruct (hops_sem st (p_hops p) x 0%nat (LScan x label) t0 eq_refl Hg0 Hw0 (single_hops_forall p H1) Hf)
+    as (t' & x' & i' & Hs' & Hg' & Hw' & Ha').
+  exists t'. split; [exact Hs'|]. split; [exact Hw'|].
   unfold tbl_envs, obindings.
   transitivity (map fst (map (abs t' i') (rows t'))); [rewrite map_map; reflexivity|].
   rewrite Ha'. f_equal. f_equal.
@@ -515,6 +566,13 @@ Proof.
                           (fun n => match label with None => true | Some l => has_label n l end)).
   2:{ intros n _. unfold label. destruct (np_labels (p_start p)); reflexivity. }
   apply map_ext. intros n. unfold abs, row_env, cur_of. cbn. fold x. rewrite Hx. reflexivity.
+Qed.
+
+Theorem chain_obindings st p :
+  single_hops p = true -> pat_fresh p = true ->
+  exists t, sem_ops st (chain_plan p) = Ok t /\ tbl_envs t = obindings st p.
+Proof.
+  intros H1 Hf. destruct (chain_obindings_wfc st p H1 Hf) as (t & Hs & _ & He). exists t. split; assumption.
 Qed.
 
 Theorem chain_bindings_directed_l st p :
